@@ -1,4 +1,5 @@
 import Failsafe.Conc.Timeout
+import Failsafe.Conc.TraceTimeout
 import Failsafe.Exec
 /-!
 # C07 — the timeout outcome is exclusive and consistent, and never early
@@ -118,5 +119,82 @@ example : ∃ res r', applyPolicy 0 3 .timeout (fun r => some (fnResult 7 none, 
     { w := {}, script := [] } = some (res, r') ∧ r'.cancelled = false ∧ res = timeoutResult.withFailure := ⟨_, _, rfl, rfl, rfl⟩
 
 end Composition
+
+/-! ## TRACE tie: recorded runs of the real Timeout are replayed through the model
+
+`TraceTimeout.osys` is `Conc.Timeout` plus observation points (what user code can see). The acceptor `Trace.accepts` is exact
+(`Trace.accepts_iff`): a recorded event list is accepted iff some interleaving of the model shows it. The theorems below say what
+acceptance implies — they are the observable part of C07, proved for **every** accepted trace. -/
+section trace
+open Failsafe.Conc.TraceTimeout
+
+/-- every model state an accepted trace can end in is a reachable state of `Conc.Timeout`: all theorems above apply to it -/
+theorem accepted_states_reachable (fuel : Nat) (tr : List Ev) (Y : List St) (h : Trace.accepts osys fuel tr = some Y) (t : St) (ht : t ∈ Y) :
+    Reachable (sys false) t :=
+  reach_core t (Trace.accepted_state_reachable osys fuel tr Y h t ht)
+
+/-- **the final sample of an accepted trace is one of the two legal outcomes**: inner result, no listener call, not cancelled — or
+`ErrExceeded`, exactly one listener call, cancelled -/
+theorem final_sample_exclusive (s : St) (hr : Trace.Reach osys s) (k : Nat) (c : Bool)
+    (hst : TraceTimeout.step s .final = some s) (hsh : shows s .final (.final k c) = true) :
+    (s.ret = .inner ∧ k = 0 ∧ c = false) ∨ (s.ret = .exceeded ∧ k = 1 ∧ c = true) := by
+  have hx := timeout_exclusive false s (reach_core s hr)
+  simp only [TraceTimeout.step] at hst
+  split at hst
+  · rename_i hq
+    simp only [shows, Bool.and_eq_true, beq_iff_eq] at hsh
+    simp only [exclusive, hq.1, hq.2, beq_self_eq_true, Bool.and_self, ↓reduceIte, Bool.or_eq_true, Bool.and_eq_true, beq_iff_eq,
+      Bool.not_eq_true'] at hx
+    rcases hx with ⟨⟨h1, h2⟩, h3⟩ | ⟨⟨h1, h2⟩, h3⟩
+    · exact Or.inl ⟨h1, by omega, by rw [← hsh.2]; exact h3⟩
+    · exact Or.inr ⟨h1, by omega, by rw [← hsh.2]; exact h3⟩
+  · cases hst
+
+theorem timer_past_armed_elapsed (s : St) (h : Reachable (sys false) s) (ht : s.timer ≠ .armed) : s.elapsed = true := by
+  have : (reach false).all (fun s => s.timer == .armed || s.elapsed) = true := by decide
+  have := invariant_of_closed (sys false) (reach false) _ reach_closed_false this s h
+  simp only [Bool.or_eq_true, beq_iff_eq] at this
+  rcases this with h1 | h1
+  · exact absurd h1 ht
+  · exact h1
+
+/-- **never early, on traces**: a listener call or an `ErrExceeded` return stamped before the limit can have elapsed is shown by no
+state of the model — a recorded run containing one is rejected -/
+theorem early_listener_impossible (s s' : St) (hr : Trace.Reach osys s)
+    (hst : TraceTimeout.step s (.core .cbListener) = some s') : shows s (.core .cbListener) (.listener true) = false := by
+  have hreach := reach_core s hr
+  simp only [TraceTimeout.step, Timeout.step] at hst
+  split at hst
+  · rename_i hw
+    have := timer_past_armed_elapsed s hreach (by rw [hw]; decide)
+    simp [shows, earlyOk, this]
+  · cases hst
+
+theorem early_exceeded_impossible (s : St) (hr : Trace.Reach osys s) :
+    shows s .callerRet (.callerRet .exceeded true) = false := by
+  have hreach := reach_core s hr
+  by_cases h : s.ret = .exceeded
+  · have := timeout_not_early false s hreach h
+    simp [shows, earlyOk, this]
+  · simp [shows, h]
+
+/-- a cancellation the function observes before the limit elapsed is not the Timeout's doing: the model never shows it -/
+theorem early_cancellation_impossible (s : St) (hr : Trace.Reach osys s) :
+    shows s .seeCancelled (.seeCancelled true true) = false := by
+  have hs := timeout_safe false s (reach_core s hr)
+  by_cases hc : s.cancelled = true
+  · have : (reach false).all (fun s => !s.cancelled || s.elapsed) = true := by decide
+    have := invariant_of_closed (sys false) (reach false) _ reach_closed_false this s (reach_core s hr)
+    simp only [hc, Bool.not_true, Bool.false_or] at this
+    simp [shows, earlyOk, this]
+  · simp [shows, hc]
+
+/-- non-vacuity: both outcomes are accepted, and the forbidden mixtures are rejected (decided by running the acceptor) -/
+example : (Trace.accepts osys 20 [.fnRet true, .callerRet .inner true, .final 0 false]).map (·.isEmpty) = some false := by decide
+example : (Trace.accepts osys 20 [.listener false, .seeCancelled true false, .fnRet false, .callerRet .exceeded false, .final 1 true]).map (·.isEmpty) = some false := by decide
+example : (Trace.accepts osys 20 [.fnRet false, .listener false, .callerRet .inner false, .final 1 true]).map (·.isEmpty) = some true := by decide
+example : (Trace.accepts osys 20 [.listener true, .fnRet false, .callerRet .exceeded false, .final 1 true]).map (·.isEmpty) = some true := by decide
+
+end trace
 
 end Failsafe.Props.C07
